@@ -8,5 +8,7 @@ CONSTANTS
   MaxVals = 2
   HookDepth = 1
   OwnBytes = TRUE
+  Nodes = {}
+  ConnConfig = "live"
 INVARIANTS StoredForm ReadBack OnlyWhenEnabled
 CHECK_DEADLOCK FALSE
